@@ -77,9 +77,22 @@ assert os.path.realpath(asyncstdlib.__file__).startswith(os.path.realpath(REPO) 
 
 
 class UserExc(Exception):
-    """An injected fault; identity is the object, `eid` names it in observations."""
+    """An injected fault; identity is the object, `eid` names it in observations.
 
-    def __init__(self, eid):
+    Injected faults come in the exception types library code is most likely to intercept for its own purposes
+    (`except AttributeError` around an optional method, `except TypeError` around a fast path, `except KeyError` /
+    `LookupError` around a cache or an instance `__dict__`, ...), and every second block of eight eids is *falsy*
+    (`bool(exc) is False`), which `if exc_val:` / `if not exc:` style tests confuse with "no exception".  The class is
+    a function of the eid, so every family that varies the eid also varies the type and the truthiness; identity
+    (`eid`) and `isinstance(_, UserExc)` are unaffected.  `UserExc(eid)` itself returns the typed object, so every
+    check injects them, not only those that go through `user_exc`."""
+
+    def __new__(cls, eid=None, *args):
+        if cls is UserExc and isinstance(eid, int) and not isinstance(eid, bool) and not os.environ.get("VERIF_PLAIN_FAULTS"):
+            cls = _typed_class(eid)
+        return super().__new__(cls, eid, *args)
+
+    def __init__(self, eid=None, *args):
         super().__init__(eid)
         self.eid = eid
 
@@ -87,28 +100,42 @@ class UserExc(Exception):
         return "UserExc(%r)" % (self.eid,)
 
 
-# Injected faults come in the exception types library code is most likely to intercept for its own purposes
-# (`except AttributeError` around an optional method, `except TypeError` around a fast path, `except KeyError` /
-# `LookupError` around a cache, ...).  The class is a function of the eid, so every family that varies the eid also
-# varies the type; identity (`eid`) and `isinstance(_, UserExc)` are unaffected.
 _TYPED = {}
+_BASES = (None, AttributeError, TypeError, KeyError, ValueError, RuntimeError, LookupError, OSError)
+
+
+def _falsy(self):
+    return False
+
+
+def _typed_class(eid):
+    base = _BASES[eid % len(_BASES)]
+    falsy = (eid // len(_BASES)) % 2 == 1
+    key = (base, falsy)
+    cls = _TYPED.get(key)
+    if cls is None:
+        name = "User" + (base.__name__ if base else "Exc") + ("Falsy" if falsy else "")
+        ns = {"__bool__": _falsy} if falsy else {}
+        cls = _TYPED[key] = type(name, (UserExc,) + ((base,) if base else ()), ns)
+    return cls
 
 
 def user_exc(eid):
     """the injected fault object for `eid`"""
-    bases = (None, AttributeError, TypeError, KeyError, ValueError, RuntimeError, LookupError, OSError)
-    base = bases[eid % len(bases)] if isinstance(eid, int) else None
-    if base is None or os.environ.get("VERIF_PLAIN_FAULTS"):
-        return UserExc(eid)
-    cls = _TYPED.get(base)
-    if cls is None:
-        cls = _TYPED[base] = type("User" + base.__name__, (UserExc, base), {})
-    return cls(eid)
+    return UserExc(eid)
+
+
+_FALSY_BASE = {}
 
 
 class UserBaseExc(asyncio.CancelledError):
     """An injected cancellation: a real `asyncio.CancelledError` (a BaseException that is not an Exception), so code
-    that singles out cancellation by type meets it."""
+    that singles out cancellation by type meets it.  Every second block of eight eids is falsy, as for `UserExc`."""
+
+    def __new__(cls, eid=None, *args):
+        if cls is UserBaseExc and isinstance(eid, int) and (eid // 8) % 2 == 1 and not os.environ.get("VERIF_PLAIN_FAULTS"):
+            cls = _FALSY_BASE.setdefault("c", type("UserBaseExcFalsy", (UserBaseExc,), {"__bool__": _falsy}))
+        return super().__new__(cls, eid, *args)
 
     def __init__(self, eid):
         super().__init__(eid)
@@ -297,7 +324,35 @@ def canon(v):
         return ["fill"]
     if isinstance(v, float):
         return ["f", repr(v)]
+    if isinstance(v, Acc):
+        return ["acc", v.n]
     return ["?", type(v).__name__]
+
+
+class Acc:
+    """A summable user value written the way `sum()`-friendly classes commonly are: `a + b` builds a new object,
+    `0 + a` (the default start) returns `a` itself, and `a += b` works IN PLACE.  An aggregation that switches to `+=`
+    on an intermediate total therefore mutates an input item; the value shows it."""
+
+    __slots__ = ("n",)
+
+    def __init__(self, n):
+        self.n = n
+
+    def __add__(self, other):
+        return Acc(self.n + other.n) if isinstance(other, Acc) else NotImplemented
+
+    def __radd__(self, other):
+        return self if other == 0 and not isinstance(other, Acc) else NotImplemented
+
+    def __iadd__(self, other):
+        if not isinstance(other, Acc):
+            return NotImplemented
+        self.n += other.n
+        return self
+
+    def __repr__(self):
+        return "Acc(%d)" % self.n
 
 
 class Fill:
